@@ -12,7 +12,10 @@ import threading
 from .common import VERIF, log, run
 
 K2V = os.path.join(VERIF, "tools", "k2v", "target", "release", "k2v")
-PRELUDE = os.path.join(VERIF, "verus", "prelude.rs")
+# dev override (bin/vdev only): alternative verus/ and contracts/ directories
+VERUS_DIR = os.environ.get("KONST_VERIF_VERUS_DIR", os.path.join(VERIF, "verus"))
+CONTRACTS_DIR = os.environ.get("KONST_VERIF_CONTRACTS_DIR", os.path.join(VERIF, "contracts"))
+PRELUDE = os.path.join(VERUS_DIR, "prelude.rs")
 
 _expand_lock = threading.Lock()
 
@@ -104,7 +107,7 @@ def parse_vc(path, _seen=None):
             if uname in _seen:
                 continue
             _seen.add(uname)
-            sub = parse_vc(os.path.join(VERIF, "contracts", uname + ".vc"), _seen)
+            sub = parse_vc(os.path.join(CONTRACTS_DIR, uname + ".vc"), _seen)
             vc["req"] += [r for r in sub["req"] if r not in vc["req"]]
             vc["prelude"] += sub["prelude"]
             for k, v in sub["items"].items():
@@ -230,7 +233,7 @@ def assemble(k2v_out, vc, unit):
     for name in vc["items"]:
         if name not in seen:
             problems.append("contract for `%s` has no extracted function (anchor lost: renamed or removed in /repo?)" % name)
-    prelude = open(PRELUDE).read() + "\n" + open(os.path.join(VERIF, "verus", "utf8.rs")).read() + "\n" + open(os.path.join(VERIF, "verus", "pattern.rs")).read()
+    prelude = open(PRELUDE).read() + "\n" + open(os.path.join(VERUS_DIR, "utf8.rs")).read() + "\n" + open(os.path.join(VERUS_DIR, "pattern.rs")).read()
     lines = []
     lines += ["// generated by /verif/lib/vrun/verus.py for unit %s — do not edit" % unit,
               "#![allow(unused_imports, unused_variables, unused_mut, unused_assignments, dead_code, unused_parens, unused_braces, unreachable_code, non_snake_case)]",
@@ -292,7 +295,7 @@ def run_verus_file(path, workdir, timeout=900, rlimit=None):
 
 def run_unit(scratch, prop, unit, exp, tier):
     res = dict(violations=[], undecided=[], units=[], cmds=[], trusted=[], probes=None)
-    vc_path = os.path.join(VERIF, "contracts", unit + ".vc")
+    vc_path = os.path.join(CONTRACTS_DIR, unit + ".vc")
     vc = parse_vc(vc_path)
     res["trusted"] = ["[%s] %s" % (unit, t) for t in vc["trusted"]]
     wd = os.path.join(scratch.path, "verus-" + unit)
@@ -405,7 +408,7 @@ def run_unit(scratch, prop, unit, exp, tier):
 
 
 def run_units(scratch, prop, units, tier):
-    have = [u for u in units if os.path.exists(os.path.join(VERIF, "contracts", u + ".vc"))]
+    have = [u for u in units if os.path.exists(os.path.join(CONTRACTS_DIR, u + ".vc"))]
     if not have:
         return {}
     ok, blog = ensure_k2v()
